@@ -22,4 +22,6 @@ CONTROLS = [
     dict(name="any leading expression statement is pinned above the hoisted imports (seed C19_c shape)",
          edits=[("cdd/compound/gen_utils.py", "    doc_str: Optional[str] = ast.get_docstring(parsed_ast, clean=True)\n", "    doc_str = parsed_ast.body[0] if isinstance(parsed_ast.body[0], ast.Expr) else None\n")],
          expect=r"gen_module/only-the-docstring-stays-above-the-hoisted-imports"),
+    dict(name="BENIGN: the exists-guard tests the phase first", benign=True,
+         edits=[("cdd/__main__.py", "path.isfile(args.output_filename) and args.phase == 0", "args.phase == 0 and path.isfile(args.output_filename)")]),
 ]
